@@ -613,6 +613,88 @@ pub mod ovr_gen_none {
     }
 }
 
+pub mod ovr_none_nomr_r {
+    use super::*;
+    pub mod eps {
+        use super::super::*;
+
+
+    }
+
+    pub struct Contract;
+
+    #[entry_points]
+    #[contract]
+    #[sv::features(replies)]
+
+    impl Contract {
+        pub fn new() -> Self { Self }
+        #[sv::msg(instantiate)]
+        fn instantiate(&self, _ctx: InstantiateCtx) -> StdResult<Response> { Ok(Response::new()) }
+        #[sv::msg(exec)]
+        fn do_exec(&self, _ctx: ExecCtx) -> StdResult<Response> { Ok(Response::new()) }
+        #[sv::msg(query)]
+        fn do_query(&self, _ctx: QueryCtx) -> StdResult<Resp> { Ok(Resp {}) }
+        #[sv::msg(sudo)]
+        fn do_sudo(&self, _ctx: SudoCtx) -> StdResult<Response> { Ok(Response::new()) }
+    }
+}
+
+pub mod ovr_sudo_nomr_r {
+    use super::*;
+    pub mod eps {
+        use super::super::*;
+        #[sylvia::cw_schema::cw_serde]
+        pub struct CustomSudo {}
+        pub fn sudo(_deps: DepsMut, _env: Env, _msg: CustomSudo) -> StdResult<Response> { Ok(Response::new()) }
+    }
+
+    pub struct Contract;
+
+    #[entry_points]
+    #[contract]
+    #[sv::features(replies)]
+    #[sv::override_entry_point(sudo=eps::sudo(eps::CustomSudo))]
+    impl Contract {
+        pub fn new() -> Self { Self }
+        #[sv::msg(instantiate)]
+        fn instantiate(&self, _ctx: InstantiateCtx) -> StdResult<Response> { Ok(Response::new()) }
+        #[sv::msg(exec)]
+        fn do_exec(&self, _ctx: ExecCtx) -> StdResult<Response> { Ok(Response::new()) }
+        #[sv::msg(query)]
+        fn do_query(&self, _ctx: QueryCtx) -> StdResult<Resp> { Ok(Resp {}) }
+        #[sv::msg(sudo)]
+        fn do_sudo(&self, _ctx: SudoCtx) -> StdResult<Response> { Ok(Response::new()) }
+    }
+}
+
+pub mod ovr_gen_none_nomr_r {
+    use super::*;
+    pub mod eps {
+        use super::super::*;
+
+
+    }
+
+    pub struct Contract<T> { _p: std::marker::PhantomData<T> }
+
+    #[entry_points(generics<Empty>)]
+    #[contract]
+    #[sv::features(replies)]
+
+    impl<T> Contract<T> where T: sylvia::types::CustomMsg + 'static {
+        pub fn new() -> Self { Self { _p: std::marker::PhantomData } }
+        #[sv::msg(instantiate)]
+        fn instantiate(&self, _ctx: InstantiateCtx) -> StdResult<Response> { Ok(Response::new()) }
+        #[sv::msg(exec)]
+        fn do_exec(&self, _ctx: ExecCtx, _t: Option<T>) -> StdResult<Response> { Ok(Response::new()) }
+        #[sv::msg(query)]
+        fn do_query(&self, _ctx: QueryCtx) -> StdResult<Resp> { Ok(Resp {}) }
+        #[sv::msg(sudo)]
+        fn do_sudo(&self, _ctx: SudoCtx) -> StdResult<Response> { Ok(Response::new()) }
+    }
+}
+
 pub mod ovr_shared_sudo_migr {
     use super::*;
     pub mod eps {
